@@ -4,6 +4,10 @@
 (* prints a VIOL line and the trace goes on, so every call of a batch is judged.                                *)
 EXTENDS Session, TLC, Json, IOUtils
 
+P == INSTANCE Pipeline
+R == INSTANCE Recon
+LineCommentKindsS == {"Comment(InlineLine)", "Comment(IndividualLine)"}
+
 Rec == ndJsonDeserialize(IOEnv.TRACE)
 
 VARIABLES l, calls
@@ -16,6 +20,33 @@ IsEvent(e) == l <= Len(Rec) /\ Rec[l].ev = e /\ l' = l + 1
 Report(tag, what) == PrintT(<<tag, ToJson(what)>>)
 
 Wants(e, p) == p \in RangeOf(e.check)
+
+\* --- the recorded stage snapshots of the real pipeline against the frames of Pipeline.tla and the reconstructor of Recon.tla
+StageNames == <<"lex", "parse", "consolidate", "consolidate", "consolidate", "ignore", "void", "initfmt", "format", "format", "format", "format", "format">>
+ReconKind(k) == IF k \in LineCommentKindsS THEN "linecomment" ELSE IF k = "Eof" THEN "eof" ELSE "word"
+StageDrift(r) ==
+  LET S == r.stages
+      n == Len(S)
+      names == [i \in 1..n |-> S[i].stage]
+      rows(i) == S[i].rows
+      fmtIdx(i) == Cardinality({j \in 1..i : S[j].stage = "format"})
+  IN (IF names # StageNames THEN {"stage_sequence"} ELSE {})
+     \cup UNION {
+        IF S[i].stage \in {"parse", "consolidate", "ignore", "void", "initfmt"} THEN (IF ~P!FrameNoText(rows(i - 1), rows(i)) THEN {"frame_" \o S[i].stage} ELSE {})
+        ELSE IF S[i].stage = "format" THEN (IF ~P!FrameFormat(fmtIdx(i), rows(i - 1), rows(i)) THEN {"frame_format" \o ToString(fmtIdx(i))} ELSE {})
+        ELSE {}
+        : i \in 2..n}
+StageViolations(r) ==
+  LET S == r.stages  n == Len(S)  A == S[1].rows  B == S[n].rows IN
+  (IF Len(A) # Len(B) THEN {<<"C01", "token_table_length">>}
+   ELSE (IF \E i \in 1..Len(A) : FoldSeq(NonBlank(B[i].text)) # FoldSeq(NonBlank(A[i].text)) THEN {<<"C01", "token_text">>} ELSE {})
+        \cup (IF \E i \in 1..Len(A) : B[i].ign /\ (B[i].text # A[i].text \/ B[i].ws # A[i].ws) THEN {<<"C07", "verbatim_token_changed">>} ELSE {}))
+  \* the text that was emitted is what the reconstructor model renders from the final table
+  \cup (IF R!Reconstruct([crlf |-> r.cfg.crlf, tabs |-> r.cfg.tabs, tw |-> r.cfg.tw, ci |-> r.cfg.ci],
+                          [i \in 1..Len(B) |-> [kind |-> ReconKind(B[i].kind), text |-> B[i].text, ws |-> B[i].ws, ign |-> B[i].ign,
+                                                nl |-> B[i].nl, ind |-> B[i].ind, cont |-> B[i].cont, sp |-> B[i].sp]]) # r.out
+           /\ r.cfg.tw * r.cfg.ci <= 255
+        THEN {<<"C01", "reconstruct">>} ELSE {})
 
 CallViolations(e) ==
   LET r == e.c IN
@@ -40,6 +71,7 @@ CallViolations(e) ==
                \cup (IF \E i \in 1..Len(r.tin) : ~m[i] /\ r.ftab[i][1] # 0 /\ i \notin RangeOf(r.asmtoks) THEN {<<"C07", "outside_formatted">>} ELSE {})
           ELSE {})
   \cup (IF Wants(e, "C12") /\ "tout" \in DOMAIN r THEN {<<"C12", c>> : c \in C12_Violations(r)} ELSE {})
+  \cup (IF "stages" \in DOMAIN r THEN {v \in StageViolations(r) : Wants(e, v[1])} ELSE {})
   \cup (IF Wants(e, "C14") /\ "plines" \in DOMAIN r THEN {<<"C14", c>> : c \in C14_Violations(r)} ELSE {})
   \cup (IF Wants(e, "C15") /\ "ftab" \in DOMAIN r THEN {<<"C15", c>> : c \in C15_Violations(r)} ELSE {})
 
@@ -50,6 +82,8 @@ TraceCall == /\ IsEvent("Call")
              /\ calls' = Append(calls, Rec[l].c)
              /\ LET vs == CallViolations(Rec[l]) IN
                 \A v \in vs : Report("VIOL", [sid |-> Rec[l].sid, call |-> Len(calls) + 1, prop |-> v[1], clause |-> v[2]])
+             /\ ("stages" \in DOMAIN Rec[l].c) => \A d \in StageDrift(Rec[l].c) : Report("DRIFT", [sid |-> Rec[l].sid, module |-> "Pipeline", clause |-> d])
+             /\ ("stages" \in DOMAIN Rec[l].c) => Report("STAGES", [sid |-> Rec[l].sid])
              /\ Report("OK", [sid |-> Rec[l].sid, call |-> Len(calls) + 1])
 
 TraceRel == /\ IsEvent("Rel")
